@@ -6,6 +6,12 @@ TECH = 'bounded symbolic execution of the rustc MIR of the real functions (mirsy
 NOTE = ('trusted: rustc MIR dump, the interpreter core, the library models listed in the evidence (validated by native replay / '
         'concrete differential runs), z3; bounds as stated in the evidence file; nothing outside the bounds is claimed')
 CLAIMED = {
+ 'C03': ('stream templates with free bytes decoded by both real connections and compared with an independent reference decoder of the response grammar on every path (plus the field-name alphabet lemma)', '4 C03'),
+ 'C02': ('one symbolic stream run under every two-way split, byte-wise and further segmentations on both connections, results compared pairwise by z3; prefix stability of the line and greeting grammars', '4 C02'),
+ 'C09': ('free byte strings and magnitude templates through both connections: no feasible path panics, reads are bounded, malformed input yields InvalidMessage', '4 C09'),
+ 'C10': ('every cut position of the stream templates followed by EOF on both connections: clean close iff response boundary, else UnexpectedEof, complete responses delivered first', '4 C10'),
+ 'C18': ('free first lines under several segmentations through both connect functions against the greeting grammar (connected / InvalidMessage / UnexpectedEof, version verbatim); the password exchange is not covered yet', '4 C18'),
+
  'C07': ('command names of every stated length and add_argument sequences with a fresh-bytes renderer: acceptance, rollback and one-line framing decided by z3 on every path', '4 C07'),
  'C13': ('list building and rendering for 1..N commands with symbolic command bytes and the typed list impls (Vec, tuples 1..8) with symbolically failing conversions; framing and positional pairing asserted on every path', '4 C13'),
  'C20': ('every tag and subsystem variant against Other(symbolic name): ==, cmp, hash feed; Tag::try_from on all strings within the bounds and on every known name in every letter case; subsystem names through from_frame/as_str', '4 C20'),
